@@ -303,6 +303,12 @@ func genC03World(t *rapid.T) C03World {
 			w.MSI[k] = int64(uni(t, "msi.v", -50, 50))
 		}
 	}
+	if pct(t, "msi.empty", 50) {
+		w.MSI[""] = int64(uni(t, "msi.ev", 1, 50))
+	}
+	if pct(t, "O.MS.empty", 50) {
+		w.O.MS[""] = float32(uni(t, "O.MS.ev", 1, 8))
+	}
 	w.O.Sl = []int64{int64(uni(t, "O.Sl0", -9, 9)), int64(uni(t, "O.Sl1", -9, 9)), 5}
 	w.O.Arr = [3]uint16{1, uint16(uni(t, "O.Arr1", 0, 9)), 3}
 	w.MI8S = map[int8]string{1: "one", -2: genStr(t, "mi8s")}
@@ -565,6 +571,11 @@ func (g *c03Gen) target() c03Target {
 }
 
 func (g *c03Gen) strKey() *dsl.Expr {
+	if pct(g.t, g.lbl("emptykey"), 12) {
+		// a key variable that holds the empty string (a key like any other)
+		g.nt["empty-string-key-variable"] = true
+		return dsl.Var("kse")
+	}
 	if ls := g.locals['s']; len(ls) > 0 && pct(g.t, g.lbl("skv"), 30) {
 		return dsl.Var(ls[uni(g.t, g.lbl("sk"), 0, len(ls)-1)])
 	}
@@ -715,7 +726,7 @@ func (g *c03Gen) stmts() []*dsl.Stmt {
 	t := g.t
 	var out []*dsl.Stmt
 	// key variables used by element accesses
-	out = append(out, dsl.Assign(dsl.Var("ki8"), "=", dsl.Var("gI8")), dsl.Assign(dsl.Var("ki64"), "=", dsl.Int(int64(uni(t, "ki64", 0, 2)))))
+	out = append(out, dsl.Assign(dsl.Var("ki8"), "=", dsl.Var("gI8")), dsl.Assign(dsl.Var("ki64"), "=", dsl.Int(int64(uni(t, "ki64", 0, 2)))), dsl.Assign(dsl.Var("kse"), "=", dsl.Str("")))
 	n := uni(t, "nstmts", 3, 10)
 	if g.late {
 		// a plain assignment to a name that is an ordinary local now and may be injected later
